@@ -209,6 +209,13 @@ impl MinCostFlowSolver {
             .maximal_formation_count()
             .unwrap_or(100) as UpperBound;
 
+        // an arc between two nodes must be able to carry all vehicles of a maintenance slot, even
+        // if the slot has more tracks than a formation has vehicles
+        let maximal_flow_on_arc = maintenance_slots
+            .values()
+            .map(|count| *count as UpperBound)
+            .fold(maximal_formation_count_for_vehicle_type, UpperBound::max);
+
         let trip_node_count =
             self.network.service_nodes(vehicle_type).count() + self.network.depots_iter().count();
         // number of nodes in the flow network will be twice this number
@@ -333,7 +340,7 @@ impl MinCostFlowSolver {
 
                 cost_overflow_checker = cost_overflow_checker
                     .checked_add(
-                        cost.checked_mul(maximal_formation_count_for_vehicle_type)
+                        cost.checked_mul(maximal_flow_on_arc)
                             .unwrap(),
                     )
                     .expect("overflow in cost_overflow_checker");
@@ -342,7 +349,7 @@ impl MinCostFlowSolver {
                     builder.add_edge(pred_right_rsnode, *left_rsnode),
                     EdgeLabel {
                         lower_bound: 0,
-                        upper_bound: maximal_formation_count_for_vehicle_type,
+                        upper_bound: maximal_flow_on_arc,
                         cost,
                     },
                 );
